@@ -91,6 +91,15 @@ impl Check for C01 {
     fn budget(t: Tier) -> usize {
         t.pick(20_000, 400_000)
     }
+    fn fixed(t: Tier) -> Vec<Case> {
+        prog::sweep_programs(t == Tier::Thorough).into_iter().map(|program| Case { program }).collect()
+    }
+    fn describe_fixed(t: Tier) -> Option<String> {
+        Some(format!(
+            "position sweep: a leading blob of every length 4r, r = 0..255 (every 4-byte residue of the section start modulo 1020), x {} prototype / point-count variants around the packet capacity, followed by a second cloud and a blob",
+            if t == Tier::Thorough { 5 } else { 2 }
+        ))
+    }
     fn gen(s: &mut Src, _t: Tier) -> Case {
         Case { program: prog::valid_program(s, &GenOpts::default()) }
     }
